@@ -18,9 +18,12 @@ def _write_ws(src):
     if not os.path.exists(os.path.join(d, "wit", "src", "lib.rs")):
         root = os.path.join(facts.CACHE, "wit")
         if os.path.isdir(root):
+            import time
             ents = sorted(os.listdir(root), key=lambda e: os.path.getmtime(os.path.join(root, e)))
-            for e in ents[:-24]:
-                shutil.rmtree(os.path.join(root, e), ignore_errors=True)
+            for e in ents[:-8]:
+                # never remove a workspace another check may be building right now
+                if time.time() - os.path.getmtime(os.path.join(root, e)) > 3600:
+                    shutil.rmtree(os.path.join(root, e), ignore_errors=True)
         os.makedirs(os.path.join(d, "wit", "src"))
         with open(os.path.join(d, "wit", "Cargo.toml"), "w") as f:
             f.write('[package]\nname = "wit"\nversion = "0.0.0"\nedition = "2021"\n\n[workspace]\n\n[dependencies]\n'
